@@ -93,6 +93,71 @@ def ob_volume_access(pid):
         "origin, length 32-bit symbolic, lba 64-bit symbolic", ["dfs/dfs_volume.h:Volume::Access::read_block"],
         unwind=10, unwindset=[("read_block", 257)])
 
+# ---- track decoding
+W_TRACK = "w_track.cc"
+W_GATE = "w_fm_gate.cc"
+GATE_REPLACE_FM = ["_ZNK5Track9BitStream8scan_forEmmm=stub_scan_for", "_ZN12_GLOBAL__N_113copy_fm_bytesE=stub_copy_fm_bytes",
+                   "_ZN12_GLOBAL__N_110fm_get_crcE=stub_get_crc", "_ZN3DFS9CRC16Base6updateEPKhS2_=stub_crc_update",
+                   "_ZNK3DFS9CRC16Base3getEv=stub_crc_get", "_ZN5Track13self_test_crcEv=stub_self_test_crc"]
+GATE_UNWIND = [("stub_copy_bytes", 8), ("hexdump", 40), ("X_strlen", 64), ("X_mem", 64), ("vf_ostream3num", 24),
+               ("realloc_insert", 6), ("Destroy", 6), ("relocate", 6)]
+
+def ob_reverse_bits(pid):
+    return X.cxx_ob(pid, "reverse_bits", W_TRACK, "h_reverse_bits", "reverse_bit_order is bit reversal and an involution, all 256 bytes",
+                    "8 symbolic bits", ["dfs/track.h:reverse_bit_order"], unwind=10)
+def ob_crc_step(pid):
+    return X.cxx_ob(pid, "crc_step", W_TRACK, "h_crc_step",
+                    "CRC16Base::update over one byte = 8 steps of long division by x^16+x^12+x^5+1 for every 16-bit state and byte "
+                    "(induction step of 'update computes CRC-16/CCITT for every message'); initial values 0xFFFF (CCITT) and 0 (XMODEM/tape)",
+                    "16-bit state and two data bytes symbolic", ["dfs/crc16.cc:CRC16Base::update", "crc_cycle", "CCITT_CRC16", "TapeCRC"], unwind=10)
+def ob_fm_gate(pid, maxe=12):
+    return X.cxx_ob(pid, "fm_gate", W_GATE, "h_fm_gate",
+                    "real decode_fm_track with scan_for/copy_fm_bytes/CRC replaced by contract stubs answering arbitrarily: the sectors yielded are exactly "
+                    "the records with a good ID CRC, valid size code, a data (not deleted-data) mark and a good data CRC, carrying the address of that ID "
+                    "and the bytes of that data field, whatever lies in between",
+                    "every schedule of <= %d helper calls (found/not found, copy ok/failed, CRC residue zero/non-zero, any positions and bytes); "
+                    "size codes 0-1 (128/256-byte sectors); verbose off" % maxe,
+                    ["dfs/track_fm.cc:decode_fm_track", "find_record_address_mark lambda", "dfs/track.cc:decode_sector_address_and_size"],
+                    unwind=maxe + 2, unwindset=GATE_UNWIND, replace=GATE_REPLACE_FM, clang_extra=["-fno-inline", "-DVF_INSTANTIATE_STRING"],
+                    weight_gb=8, timeout=2400, object_bits=10)
+
+@prop("C06")
+def c06(tier):
+    obs = [ob_crc_step("C06"), ob_fm_gate("C06")]
+    return obs, dict(assumptions=CXX_ASSUME)
+
+W_STOR = "w_storage.cc"
+@prop("C16")
+def c16(tier):
+    obs = [X.cxx_ob("C16", "surface_arith", W_STOR, "h_surface_arith",
+                    "opposite_surface / corresponding_side_of_next_device / next for every 32-bit drive number: same group of four, other side, involution, no wrap-around",
+                    "32 symbolic bits", ["dfs/driveselector.cc:SurfaceSelector::opposite_surface", "corresponding_side_of_next_device", "next"], unwind=6),
+           X.cxx_ob("C16", "sequence_fits", W_STOR, "h_sequence_fits",
+                    "check_sequence_fits(start, k, occupied) is true iff the k slots start, start+2, ... are free and the opposite surface of start is free",
+                    "start 0..15, k 1..3, arbitrary occupancy of drives 0..23 through the real std::function", ["dfs/storage.cc:check_sequence_fits"], unwind=6)]
+    return obs, dict(assumptions=CXX_ASSUME)
+
+W_IMG = "w_image.cc"
+def ob_fileview(pid, take):
+    return X.cxx_ob(pid, "fileview.take%d" % take, W_IMG, "h_fileview",
+                    "FileView::read_block: fails iff take==0 or sector >= total, else asks the file for sector skip + (s div take)*(take+leave) + s mod take",
+                    "take = %d (constant; symbolic take stalls every back end), skip 32-bit, leave/total 16-bit, sector 20-bit symbolic" % take,
+                    ["dfs/img_fileio.cc:FileView::read_block", "dfs/dfs.h:safe_unsigned_multiply"], unwind=6, unwindset=[("X_strlen", 64)],
+                    defines=("NDEBUG", "FV_TAKE=%d" % take))
+def ob_fileview_far(pid):
+    return X.cxx_ob(pid, "fileview.far", W_IMG, "h_fileview_far", "FileView::read_block with any 64-bit sector >= total fails without touching the file",
+                    "all parameters symbolic (64-bit sector)", ["dfs/img_fileio.cc:FileView::read_block"], unwind=6, unwindset=[("X_strlen", 64)])
+def ob_blockwise(pid):
+    return X.cxx_ob(pid, "blockwise", W_IMG, "h_blockwise", "FilePresentedBlockwise::read_block(n) reads 256 bytes at byte offset 256n; a short read yields no sector",
+                    "file size and sector number 32-bit symbolic, one symbolic probe byte", ["dfs/img_sdf.cc:FilePresentedBlockwise::read_block"], unwind=6, weight_gb=4)
+TAKES_QUICK = [0, 10, 18, 800]
+TAKES_ALL = [0, 10, 16, 18, 350, 400, 560, 630, 640, 720, 800, 1280, 1440]
+
+@prop("C04")
+def c04(tier):
+    obs = [ob_fileview("C04", t) for t in (TAKES_QUICK if tier == "quick" else TAKES_ALL)] + [ob_fileview_far("C04"), ob_blockwise("C04")]
+    return obs, dict(assumptions=CXX_ASSUME)
+
 @prop("C01")
 def c01(tier):
     obs = [ob_entry_fields("C01"), ob_sector_walk("C01", 1024 if tier == "quick" else 4096), ob_volume_access("C01")]
@@ -100,7 +165,7 @@ def c01(tier):
 
 @prop("C17")
 def c17(tier):
-    obs = [ob_volume_access("C17")]
+    obs = [ob_volume_access("C17"), ob_fileview_far("C17")] + [ob_fileview("C17", t) for t in ((10, 800) if tier == "quick" else TAKES_ALL)]
     return obs, dict(assumptions=CXX_ASSUME)
 
 def cli_replay(pid, ob, values, outdir):
